@@ -102,13 +102,26 @@ Definition sc_restart_after_valset_change : list event :=
   [EvStart] ++ one_height 1 7 0 0 15 ++ one_height 2 8 7 15 13 ++ one_height 3 9 8 15 15
   ++ [EvRERespVRV (svw 4 1 [] [] [9] 15); EvStop; EvStart; EvRERespVRV (svw 4 1 [] [] [9] 15); EvProposal [51]].
 
+(** a height decided in a LATER round (two nil rounds first), the finalization stored, then a stop during commit wait
+    and a restart: the restarted machine finds the finalization of height 1 and must enter height 2 at round 0 *)
+Definition sc_restart_in_commit_wait_later_round : list event :=
+  enter0 ++
+  [EvView (sv 1 0 2 (svs 0 30 [] [([], 30)]) []) None;
+   EvRERespVRV (sv 1 1 1 (svs 0 0 [] []) []);
+   EvView (sv 1 1 2 (svs 0 30 [] [([], 30)]) []) None;
+   EvRERespVRV (sv 1 2 1 (svs 0 0 [] []) []);
+   EvView (sv 1 2 2 (svs 0 30 [] [([7], 30)]) [sph 7]) None;
+   EvFinResp 1 2 [7] 15 [2];
+   EvStop; EvStart;
+   EvRERespVRV (svw 2 1 [] [] [7] 15)].
+
 Definition scenarios : list (list event) :=
   [sc_nil_prevote_restart_block; sc_block_prevote_restart_nil; sc_block_prevote_restart_other;
    sc_nil_precommit_restart_block; sc_block_precommit_restart_nil; sc_proposal_restart_other_proposal;
    sc_prevote_delay_then_commit; sc_prevote_delay_then_nil_commit; sc_prevote_delay_then_precommit_delay;
    sc_prevote_delay_elapses; sc_precommit_delay_then_commit; sc_stale_round_nil_quorum; sc_future_round_view;
    sc_stale_step_after_committed_header; sc_commit_wait_other_header_first;
-   sc_restart_after_valset_change].
+   sc_restart_after_valset_change; sc_restart_in_commit_wait_later_round].
 
 Definition scenario_report : list (list (list N * (list (list N) * list (list N)))) :=
   map (fun es => combine (map enc_event es) (map project (run_events (sm0 true) es))) scenarios.
